@@ -16,7 +16,7 @@ func init() {
 		ID: "C02",
 		Explanation: "Decides structural necessary conditions of C02 (not the model equivalence): (R-C02-1) who-may-write per public operation: the set of persistent locations each db.DB operation can write (through the module call graph, rollback writes excepted) is within the table derived from the documentation; " +
 			"(R-C02-2) missing is never conflated with empty: every read of a version map is the comma-ok form and its value is used only under ok; (R-C02-3) version numbers are never reused: LatestVersion is only ever set to 1 in a literal inserted under a name proven absent, incremented by one, or decremented by one when undoing that increment; new versions are inserted under the just-incremented counter and that number is what a successful put returns; the dedupe short-cut returns the counter only under 'that version exists and its bytes equal the value'; " +
-			"(R-C02-4) the active version exists and cannot be deleted: deletes are edge-dominated by version != ActiveVersion, activation by presence of that version; (R-C02-5) input guards: empty names, the reserved prefix and version 0 never reach a mutation; (R-C02-6) stored values are immutable strings copied in and out by conversion; (R-C02-7) every access to the secrets map uses the operation's own name.",
+			"(R-C02-4) the active version exists and cannot be deleted: deletes are edge-dominated by version != ActiveVersion, activation by presence of that version; (R-C02-5) input guards: empty names, the reserved prefix and version 0 never reach a mutation; (R-C02-6) stored values are immutable strings copied in and out by conversion; (R-C02-7) every access to the secrets map uses the operation's own name; (R-C02-9) after the state-changing call of a mutating operation has succeeded no error return is reachable (a call that reports failure changed nothing).",
 		NotDecided:  "Equivalence with the map model over arbitrary histories (values); wrong-but-well-formed logic that keeps all these shapes.",
 		Trusted:     commonTrusted,
 		Assumptions: []string{"calls outside the module do not mutate package db's private state"},
@@ -198,6 +198,51 @@ func runC02(c *eng.Ctx, tier string) {
 	c.Floor("R-C02-7", 8)
 	// R-C02-8: failed calls (unknown name / version) are reported as not-found, not as success
 	notFoundDiscipline(c, "R-C02-8")
+	c02NoFailureAfterCommit(c, d)
+}
+
+// c02NoFailureAfterCommit: R-C02-9.  "Failed calls change nothing", seen from
+// the operation: once the state-changing call of a mutating db.DB operation
+// has succeeded (the change is made and saved), the operation cannot report
+// an error any more -- whatever else can fail (the permission check, the audit
+// record) comes before the change.
+func c02NoFailureAfterCommit(c *eng.Ctx, d *dbInfo) {
+	n := 0
+	for _, m := range d.methods {
+		if len(tC02[m.Name]) == 0 {
+			continue
+		}
+		for _, s := range d.sites(m.Fn) {
+			call, ok := s.In.(*ssa.Call)
+			if !ok || s.Call == nil || !s.Write {
+				continue
+			}
+			f := call.Parent()
+			ei := errResultIndex(f)
+			cerr := saveErr(call)
+			if ei < 0 || cerr == nil {
+				continue
+			}
+			n++
+			hit, path := eng.Search(f, call, eng.AssumeErr(cerr, true), nil, func(x ssa.Instruction) bool {
+				r, isR := x.(*ssa.Return)
+				if !isR {
+					return false
+				}
+				e := eng.RetVals(r)[ei]
+				return !eng.IsNilConst(eng.Origin(e)) && !eng.Same(e, cerr)
+			})
+			c.Check(hit == nil, "R-C02-9", f, call.Pos(), "after a successful "+eng.CallStr(&call.Call)+" in "+m.Name, "the operation reports success (nothing that can fail is left to do once the change is made and saved)", func() string {
+				if hit == nil {
+					return ""
+				}
+				return "an error can still be returned at " + c.P.Pos(hit.Pos()) + ": the caller is told the call failed although the state changed: " + c.P.PathStr(path)
+			}())
+		}
+	}
+	if n < 4 {
+		c.Undecided("R-C02-9", nil, 0, "state-changing calls of Put/Activate/DeleteVersion/Delete", "fewer than 4 found")
+	}
 }
 
 // c02Numbers: R-C02-3.
